@@ -14,7 +14,8 @@ from workloads import tl as TL
 PROPERTY_ID = "C10"
 LEVEL = "exploration"
 RULE = (
-    "seeded histories of construct/export operations over 2-4 timelines (SVG and TikZ mixed; each timeline has its own deep-copied spec; at "
+    "seeded histories of construct/export operations over 2-4 timelines (SVG and TikZ mixed; each timeline has its own deep-copied spec, except "
+    "that ~30% are given the very data dict objects of an earlier timeline together with their own options (another direction); at "
     "least half omit the scale and/or the labella options and so rely on the library defaults; others pass their own scale), always with an "
     "export after a later construction and a repeated export; one fresh process per history. One evaluation = one export in a history: "
     "its bytes must equal the reference exported alone in a fresh process, repeated exports must be identical, and no operation may change "
@@ -30,7 +31,7 @@ def plan(tier, seed):
 
 
 def floors(tier):
-    return {"evaluations": 100, "strata": ["default-scale/svg", "default-scale/tikz", "own-scale/svg", "own-scale/tikz", "repeated-export"],
+    return {"evaluations": 100, "strata": ["default-scale/svg", "default-scale/tikz", "own-scale/svg", "own-scale/tikz", "repeated-export", "shared-data-objects"],
             "events": {"history_processes": 30, "reference_processes": 60, "noninterference": 100}, "distinct_nontrivial": 30, "max_inconclusive_frac": 0.05}
 
 
@@ -53,6 +54,22 @@ def gen_history(rng):
                 s["options"] = rng.choice([None, {}, {"direction": s["options"].get("direction", "right")}])
         specs.append(s)
         backends.append(rng.choice(["svg", "tikz"]))
+    # some timelines are given the very data objects of an earlier one (same values, own options: another direction/back-end)
+    share = {}
+    import copy
+
+    for k in range(1, nt):
+        if rng.random() < 0.3:
+            j = rng.randrange(k)
+            if j in share:
+                continue
+            s = copy.deepcopy(specs[j])
+            if s["options"] is not None:
+                s["options"]["direction"] = rng.choice([d for d in TL.DIRECTIONS if d != s["options"].get("direction", "right")])
+                if rng.random() < 0.5:
+                    s["options"]["layerGap"] = rng.choice([20, 45])
+            specs[k] = s
+            share[str(k)] = j
     # operations: every timeline constructed once; exports interleaved; at least one export after a later
     # construction and one repeated export
     ops = [["new", 0], ["new", 1], ["export", 0], ["export", 0], ["export", 1]]
@@ -62,7 +79,7 @@ def gen_history(rng):
     ops.append(["export", 0])
     if rng.random() < 0.5:
         ops.append(["export", rng.randrange(nt)])
-    return {"specs": specs, "backends": backends, "ops": ops}
+    return {"specs": specs, "backends": backends, "ops": ops, "share_data": share}
 
 
 def run_proc(h, timeout=600, hashseed="0"):
@@ -137,6 +154,9 @@ def run_history(ctx, h, refs):
         if k in seen_export:
             ctx.stratum("repeated-export", generated=1, judged=1, held=1)
         seen_export[k] = e["doc"]
+        sh = h.get("share_data") or {}
+        if str(k) in sh or k in sh.values():
+            ctx.stratum("shared-data-objects", generated=1, judged=1, held=1)
         ctx.judge(stratum, HELD, None, nontrivial=nontriv, dig=digest([h, e["op"]]))
     if len(ctx.samples) < 1:
         ctx.samples.append({"ops": h["ops"], "backends": h["backends"], "n_data": [len(s["data"]) for s in h["specs"]],
